@@ -42,7 +42,7 @@ Proof.
   - intros i sub Hs. apply (closed_cons _ (match sub with Some r => all_group r | None => [] end)); [|apply all_node_image].
     destruct sub as [r|]; [apply Hs|apply closed_nil].
   - intros i flat ch [H1 _]. apply (closed_cons _ (all_group flat)); auto.
-  - intros i c m fs ks Hc Hm Hfs Hks. split.
+  - intros i sy c m fs ks Hc Hm Hfs Hks. split.
     + rewrite all_group_eq. apply closed_flat_map. exact Hks.
     + rewrite all_gdefs_eq. apply closed_app; [destruct c; [apply Hc|apply closed_nil]|].
       apply closed_app; [destruct m; [apply Hm|apply closed_nil]|]. apply closed_flat_map. exact Hfs.
@@ -65,7 +65,7 @@ Proof. destruct n; simpl; auto. Qed.
 
 Lemma kid_in_all_group g k : In k (g_kids g) -> In k (all_group g).
 Proof.
-  destruct g as [i c m fs ks]. simpl g_kids. rewrite all_group_eq. intro H.
+  destruct g as [i sy c m fs ks]. simpl g_kids. rewrite all_group_eq. intro H.
   apply in_flat_map. exists k. split; auto. apply self_in_all_node.
 Qed.
 
@@ -134,20 +134,20 @@ Section Universe.
   Qed.
   Lemma U_clip_kid g c k : In (NGroup g) U -> In c (ochain clip_chain (g_clip g)) -> In k (g_kids (c_root c)) -> In k U.
   Proof.
-    intros Hg Hc Hk. apply (U_gdefs g Hg). destruct g as [i cl m fs ks]. rewrite all_gdefs_eq. simpl in Hc.
+    intros Hg Hc Hk. apply (U_gdefs g Hg). destruct g as [i sy cl m fs ks]. rewrite all_gdefs_eq. simpl in Hc.
     destruct cl as [c0|]; [|destruct Hc]. apply in_or_app. left. apply (clip_chain_incl c0 c Hc).
     apply kid_in_all_group. exact Hk.
   Qed.
   Lemma U_mask_kid g c k : In (NGroup g) U -> In c (ochain mask_chain (g_mask g)) -> In k (g_kids (m_root c)) -> In k U.
   Proof.
-    intros Hg Hc Hk. apply (U_gdefs g Hg). destruct g as [i cl m fs ks]. rewrite all_gdefs_eq. simpl in Hc.
+    intros Hg Hc Hk. apply (U_gdefs g Hg). destruct g as [i sy cl m fs ks]. rewrite all_gdefs_eq. simpl in Hc.
     destruct m as [c0|]; [|destruct Hc]. apply in_or_app. right. apply in_or_app. left.
     apply (mask_chain_incl c0 c Hc). apply kid_in_all_group. exact Hk.
   Qed.
   Lemma U_feimage_kid g f pr r k :
     In (NGroup g) U -> In f (g_filters g) -> In pr (f_prims f) -> p_img pr = Some r -> In k (g_kids r) -> In k U.
   Proof.
-    intros Hg Hf Hp Hi Hk. apply (U_gdefs g Hg). destruct g as [i cl m fs ks]. rewrite all_gdefs_eq. simpl in Hf.
+    intros Hg Hf Hp Hi Hk. apply (U_gdefs g Hg). destruct g as [i sy cl m fs ks]. rewrite all_gdefs_eq. simpl in Hf.
     apply in_or_app. right. apply in_or_app. right. apply in_flat_map. exists f. split; auto.
     destruct f as [fp fi ps]. rewrite all_filter_eq. simpl in Hp. apply in_flat_map. exists pr. split; auto.
     destruct pr as [kd rs ins img]. simpl in Hi. subst img. rewrite all_prim_eq. apply kid_in_all_group. exact Hk.
